@@ -22,9 +22,30 @@ pub struct Built {
     pub o1: Result<Vec<u8>, CompileFail>,
 }
 
-pub fn build(tape: &[u16], mask_shifts: bool) -> Result<Built, PanicInfo> {
+/// what each worker thread is compiling right now (watchdog: a compiler that does not terminate must not hang the check)
+static IN_FLIGHT: Mutex<Vec<(std::thread::ThreadId, std::time::Instant, String)>> = Mutex::new(Vec::new());
+fn in_flight_set(src: Option<&str>) {
+    let id = std::thread::current().id();
+    let mut g = IN_FLIGHT.lock().unwrap();
+    g.retain(|e| e.0 != id);
+    if let Some(s) = src {
+        g.push((id, std::time::Instant::now(), s.to_string()));
+    }
+}
+/// programs whose compilation has been running for longer than `secs`
+pub fn in_flight_longer_than(secs: u64) -> Vec<String> {
+    IN_FLIGHT.lock().unwrap().iter().filter(|e| e.1.elapsed().as_secs() >= secs).map(|e| e.2.clone()).collect()
+}
+
+pub fn build(tape: &[u16], mask_shifts: bool, no_trap: bool) -> Result<Built, PanicInfo> {
     let prog = catch(|| Gen::program(tape, &GenOpts::default()))?;
-    let src = swaygen::emit_program(&prog, &EmitOpts { mask_shifts });
+    let src = swaygen::emit_program(&prog, &EmitOpts { mask_shifts, no_trap });
+    in_flight_set(Some(&src));
+    let r = build_src(prog, src, mask_shifts);
+    in_flight_set(None);
+    r
+}
+fn build_src(prog: Program, src: String, _mask_shifts: bool) -> Result<Built, PanicInfo> {
     let (o0, o1) = with_fastc(400, |fc| {
         let o0 = catch(|| fc.compile(&src, OptLevel::Opt0));
         let o1 = catch(|| fc.compile(&src, OptLevel::Opt1));
@@ -92,7 +113,39 @@ pub struct Rejects {
 /// Evaluate one tape for property `prop` ("C01" or "C02"). Ok(None) = not usable (generator rejected).
 pub fn eval_case(prop: &str, tape: &[u16], rep: &Report, rejects: &Rejects) -> Result<Option<CaseStats>, (String, String, Value)> {
     let reference = prop == "C01";
-    let b = match build(tape, reference) {
+    if !reference {
+        // C02: first the variant that cannot trap in arithmetic (strict equality), then the trapping one
+        let strict = eval_variant(prop, tape, rep, rejects, true)?;
+        if strict.is_none() {
+            return Ok(None);
+        }
+        let trapping = eval_variant(prop, tape, rep, rejects, false)?;
+        return Ok(match (strict, trapping) {
+            (Some(a), Some(b)) => Some(CaseStats { nontrivial: a.nontrivial || b.nontrivial, aborts: a.aborts + b.aborts, runs: a.runs + b.runs, size_ratio: b.size_ratio }),
+            (a, _) => a,
+        });
+    }
+    eval_variant(prop, tape, rep, rejects, false)
+}
+
+/// signature of the recorded C02 finding (see known_findings.json)
+pub const SIG_DEAD_TRAP: &str = "release-continues-past-arithmetic-abort-of-debug";
+
+pub const SIG_REVERSE_COPY_PROP: &str = "release-differs-only-with-memcpyprop-reverse";
+
+/// release build of `src` with the `memcpyprop_reverse` pass skipped (None if it does not compile)
+fn o1_without_reverse_copy_prop(src: &str) -> Option<Vec<u8>> {
+    with_fastc(400, |fc| {
+        sway_ir::pass_manager::verif_hooks::set_skipped_passes(&["memcpyprop_reverse"]);
+        let r = catch(|| fc.compile(src, OptLevel::Opt1));
+        sway_ir::pass_manager::verif_hooks::set_skipped_passes(&[]);
+        r.ok()?.ok().map(|c| c.bytecode)
+    })
+}
+
+fn eval_variant(prop: &str, tape: &[u16], rep: &Report, rejects: &Rejects, no_trap: bool) -> Result<Option<CaseStats>, (String, String, Value)> {
+    let reference = prop == "C01";
+    let b = match build(tape, reference, no_trap) {
         Ok(b) => b,
         Err(p) => {
             rep.class("generator_panicked");
@@ -168,7 +221,31 @@ pub fn eval_case(prop: &str, tape: &[u16], rep: &Report, rejects: &Rejects) -> R
         } else {
             let same = r0 == r1 || (matches!((&r0.end, &r1.end), (End::Revert(0) | End::Panic(_), End::Revert(0) | End::Panic(_))) && abort_class(&r0.end) == abort_class(&r1.end) && r0.logs == r1.logs);
             if !same {
-                return Err(mk("debug-release-differ", format!("debug {} vs release {}", r0.to_json(), r1.to_json())));
+                // Recorded finding: the optimizer removes (or moves) arithmetic whose result is unused, together with its
+                // overflow / division-by-zero abort. Attributed only when (1) the debug build ends in an arithmetic abort,
+                // (2) the release build got at least as far (debug's logs are a prefix of release's), and (3) the same
+                // program with operands masked so that arithmetic cannot abort agreed on every input (checked before).
+                let dead_trap = !no_trap && abort_class(&r0.end) == "arith" && r1.logs.len() >= r0.logs.len() && r1.logs[..r0.logs.len()] == r0.logs[..];
+                if dead_trap {
+                    rep.class("known:dead-arithmetic-abort-eliminated");
+                    let (_, summary, replay) = mk(SIG_DEAD_TRAP, format!("debug {} vs release {}", r0.to_json(), r1.to_json()));
+                    rep.violation(Violation { signature: SIG_DEAD_TRAP.into(), summary, replay });
+                    continue;
+                }
+                // Recorded finding: the release-only pass `memcpyprop_reverse` (memcpyopt::copy_prop_reverse) merges the copies of
+                // both arms of a by-reference if/match into one destination. Attributed only when the release build with exactly
+                // that pass skipped (cfg(fuellabs_sway_verif) hook in sway-ir's PassManager) behaves like the debug build.
+                if let Some(bc) = o1_without_reverse_copy_prop(&b.src) {
+                    let r2 = exec::run_script(&bc, &data);
+                    if r2 == r0 {
+                        rep.class("known:memcpyprop-reverse-miscompile");
+                        let (_, summary, replay) = mk(SIG_REVERSE_COPY_PROP, format!("debug {} vs release {} (release without memcpyprop_reverse agrees with debug)", r0.to_json(), r1.to_json()));
+                        rep.violation(Violation { signature: SIG_REVERSE_COPY_PROP.into(), summary, replay });
+                        continue;
+                    }
+                }
+                let sig = if no_trap { "debug-release-differ-without-arithmetic-aborts" } else { "debug-release-differ" };
+                return Err(mk(sig, format!("debug {} vs release {}", r0.to_json(), r1.to_json())));
             }
         }
     }
@@ -185,7 +262,17 @@ fn abort_class(e: &End) -> &'static str {
     }
 }
 
+/// compiling is expensive: shrink with a small budget unless VERIF_SHRINK says otherwise
+fn cheap_shrink(ctx: &Ctx) -> Ctx {
+    let mut c = ctx.clone();
+    if std::env::var("VERIF_SHRINK").is_err() {
+        c.shrink_iters = 200;
+    }
+    c
+}
+
 pub fn run(ctx: &Ctx) {
+    let ctx = &cheap_shrink(ctx);
     let prop = ctx.prop.clone();
     let rule = if prop == "C01" {
         "proptest tape -> typed Sway script (ints u8..u256, bool, b256, tuples, structs, enums, arrays, if/while/match/break/continue/early return, calls, assert/require/log; \
@@ -203,7 +290,9 @@ pub fn run(ctx: &Ctx) {
         rep.assume("run-time out-of-bounds array indices are never generated (index is taken modulo the length): known upstream issue #7521, pinned separately");
     }
     let rejects = Rejects::default();
-    let cases = ctx.cases(1200, 40_000);
+    let cases = ctx.cases(800, 40_000);
+    // watchdog: a compilation running for more than 120 s is reported as inconclusive (exit 2), never as a violation
+    spawn_watchdog(&prop);
     let out = run_prop(ctx, if prop == "C01" { 1 } else { 2 }, cases, tape_strategy, |tape| {
         match eval_case(&prop, tape, &rep, &rejects) {
             Ok(None) => Ok(()),
@@ -215,7 +304,7 @@ pub fn run(ctx: &Ctx) {
                     let h = hash64(&tape.iter().flat_map(|x| x.to_be_bytes()).collect::<Vec<u8>>());
                     rep.nontrivial(h);
                     rep.sample_hashed(h, || {
-                        let b = build(tape, prop == "C01").ok();
+                        let b = build(tape, prop == "C01", false).ok();
                         json!({"src": b.map(|b| truncate(&b.src, 1200)), "size_ratio_o1_o0": st.size_ratio})
                     });
                 }
@@ -245,7 +334,7 @@ pub fn run(ctx: &Ctx) {
 pub fn dump(args: &[String]) {
     let seed: u64 = args.first().and_then(|s| s.parse().ok()).unwrap_or(1);
     let tape = gen_one(seed, &tape_strategy());
-    let b = build(&tape, true).expect("gen");
+    let b = build(&tape, true, args.get(1).map(|s| s == "notrap").unwrap_or(false)).expect("gen");
     println!("{}", b.src);
     println!("// o0: {:?}\n// o1: {:?}", b.o0.as_ref().map(|b| b.len()), b.o1.as_ref().map(|b| b.len()));
     for args in swaygen::input_sets(1) {
@@ -256,4 +345,109 @@ pub fn dump(args: &[String]) {
         }
     }
     std::process::exit(0);
+}
+
+
+// ---------------------------------------------------------------------------------------------
+// C17: the compiler terminates with artifacts or diagnostics on every generated program (no panic, no ICE)
+
+/// signature of an internal compiler error / panic: first line of the first internal message, digits masked
+pub fn ice_signature(f: &CompileFail) -> String {
+    let msg = f.errors.iter().find(|e| e.contains("Internal compiler error") || e.starts_with("PANIC")).or(f.errors.first()).cloned().unwrap_or_default();
+    let first = msg.lines().next().unwrap_or("");
+    let first = first.split(" @ line").next().unwrap_or(first);
+    let mut out = String::new();
+    for c in first.chars().take(160) {
+        if c.is_ascii_digit() {
+            if !out.ends_with('#') {
+                out.push('#');
+            }
+        } else {
+            out.push(c);
+        }
+    }
+    format!("{}:{}", f.stage, out.trim_end())
+}
+
+pub fn run_c17(ctx: &Ctx) {
+    let ctx = &cheap_shrink(ctx);
+    let rep = Report::new(
+        ctx,
+        "proptest tape -> typed Sway script (as C01/C02: ints u8..u256, bool, b256, tuples, structs, enums, arrays, if/while/match/break/continue/early return, calls, \
+         assert/require/log; shape knobs: near-duplicate functions, register pressure, call chains, big aggregates), emitted in two variants (plain and operand-masked \
+         arithmetic) and compiled in process through compile_to_ast -> ast_to_asm -> asm_to_bytecode at O0 and O1; oracle: every compilation ends with bytecode or with \
+         ordinary diagnostics - a panic or a CompileError::Internal ('Internal compiler error') is a violation, identified by stage + first line of the message (digits \
+         masked); non-trivial = the program passed type checking (reached IR generation) at both levels; distinct by sha256 of the source",
+    );
+    rep.assume("programs are compiled in process through sway_core::{compile_to_ast, ast_to_asm, asm_to_bytecode} with a pre-compiled std namespace (the path forc takes per package)");
+    rep.assume("domain: well-typed generated scripts only (mutated / ill-typed corpus programs are not generated in this check)");
+    rep.assume("a compilation that does not terminate within 120 s ends the check as inconclusive (exit 2), not as a violation");
+    spawn_watchdog("C17");
+    let cases = ctx.cases(700, 40_000);
+    let kf = KnownFindings::load();
+    let out = run_prop(ctx, 17, cases, tape_strategy, |tape| {
+        for no_trap in [false, true] {
+            let b = match build(tape, false, no_trap) {
+                Ok(b) => b,
+                Err(_) => {
+                    rep.class("generator_panicked");
+                    return Ok(());
+                }
+            };
+            rep.eval();
+            let mut reached_ir = true;
+            for (lvl, r) in [("O0", &b.o0), ("O1", &b.o1)] {
+                match r {
+                    Ok(_) => rep.class(&format!("{lvl}:bytecode")),
+                    Err(f) if f.internal || f.stage == "panic" => {
+                        let sig = ice_signature(f);
+                        rep.class(&format!("{lvl}:internal-error"));
+                        let v = Violation {
+                            signature: sig.clone(),
+                            summary: format!("{lvl} build of a well-typed generated script: {}", truncate(f.errors.first().map(|s| s.as_str()).unwrap_or(""), 300)),
+                            replay: json!({"tape": tape, "src": b.src, "level": lvl, "errors": f.errors}),
+                        };
+                        if kf.lookup("C17", &sig).is_some() {
+                            rep.violation(v);
+                        } else {
+                            return Err(format!("{sig}\u{1}{}", v.summary));
+                        }
+                    }
+                    Err(f) => {
+                        rep.class(&format!("{lvl}:diagnostics"));
+                        if f.stage == "ast" {
+                            reached_ir = false;
+                        }
+                    }
+                }
+            }
+            if reached_ir {
+                let h = hash64(b.src.as_bytes());
+                rep.nontrivial(h);
+                rep.sample_hashed(h, || json!({"src": truncate(&b.src, 1200), "o0": b.o0.as_ref().map(|x| x.len()).map_err(|f| f.errors.first().cloned()), "o1": b.o1.as_ref().map(|x| x.len()).map_err(|f| f.errors.first().cloned())}));
+            }
+        }
+        Ok(())
+    });
+    if let Some((tape, reason)) = out.failure {
+        let (sig, summary) = reason.split_once('\u{1}').map(|(a, b)| (a.to_string(), b.to_string())).unwrap_or((reason.clone(), reason.clone()));
+        let src: Vec<String> = [false, true].iter().filter_map(|nt| build(&tape, false, *nt).ok().map(|b| b.src)).collect();
+        rep.violation(Violation { signature: sig, summary, replay: json!({"tape": tape, "src_variants": src}) });
+    }
+    crate::fastc::drop_thread_fastc();
+    rep.finish();
+}
+
+fn spawn_watchdog(prop: &str) {
+    let prop = prop.to_string();
+    std::thread::spawn(move || loop {
+        std::thread::sleep(std::time::Duration::from_secs(5));
+        let stuck = in_flight_longer_than(120);
+        if let Some(src) = stuck.first() {
+            let p = scratch_root().join(format!("stuck-{prop}.sw"));
+            let _ = std::fs::write(&p, src);
+            eprintln!("INCONCLUSIVE: compiling a generated program has not terminated after 120 s; source saved to {}", p.display());
+            std::process::exit(2);
+        }
+    });
 }
